@@ -15,6 +15,8 @@ mod bench;
 mod board;
 mod evaluate;
 mod logger;
+#[cfg(rce_verif)]
+mod rce_verif;
 mod search;
 mod testing_utils;
 mod uci;
